@@ -70,20 +70,22 @@ ROWSELS = ["a", "b::1", ("a", 1), "a::-1", "b>>1", ("c", 0, -1), "c"]
 PROBES = ["a", ABSENT, ("b", 0)]
 
 
-def universe(tier):
+def universe(tier, names=NAMES):
     ops = []
     for i in range(MAXROWS):
-        for nm in NAMES:
+        for nm in names:
             ops.append(("cell", i, nm))
-    for rs in ROWSELS:
-        for nm in (NAMES if tier == "thorough" else NAMES[:2]):
+    n0 = names[0]
+    rowsels = ROWSELS if names == NAMES else [n0, f"{n0}::1", (n0, 1), f"{n0}::-1", f"{names[1]}>>1", (names[-1], 0, -1), names[-1]]
+    for rs in rowsels:
+        for nm in (names if tier == "thorough" else names[:2]):
             ops.append(("cellby", rs, nm))
     ops += [("col", "pattern"), ("col", "const"), ("attr", "pattern"), ("attr", "const"), ("rot",),
             ("vcell", 0), ("newcol",), ("delcol", "w"), ("popcol", "k"),
-            ("append", "a"), ("append", "c"), ("index", "k"), ("index", "name"),
-            ("cellk", 0, "a"),
+            ("append", names[0]), ("append", names[-1]), ("index", "k"), ("index", "name"),
+            ("cellk", 0, names[0]),
             ("delidx", "del"), ("delidx", "pop"), ("readd", "item"), ("readd", "attr")]
-    ops += [("probe", p) for p in PROBES]
+    ops += [("probe", p) for p in (PROBES if names == NAMES else [names[0], ABSENT, (names[1], 0)])]
     ops += [("labels",)]
     return ops
 
@@ -91,20 +93,30 @@ def universe(tier):
 class System(simple.SimpleSystem):
     prop = "C07"
 
-    def __init__(self, init, tier, config_info=None):
+    def __init__(self, init, tier, config_info=None, variant=""):
         super().__init__(config_info)
         self.init = tuple(init)
-        self.name = "table:" + ",".join(init)
-        self.universe = universe(tier)
+        self.variant = variant
+        self.name = "table:" + ",".join(init) + (("/" + variant) if variant else "")
+        # the name alphabet of this system: the three standard names, or the names of the initial column when they are special
+        self.names = NAMES if set(init) <= set(NAMES) else tuple(dict.fromkeys(init))
+        self.universe = universe(tier, self.names)
 
     # ---- real side
     def build(self):
         import numpy as np
         from xdeps import Table
         m = Model(self.init)
-        t = Table({"name": np.array(m.cols["name"], dtype=object) if m.n() else np.array([], dtype=object),
-                   "v": np.array(m.cols["v"], dtype=float),
-                   "k": np.array(m.cols["k"], dtype=object)})
+        if self.names != NAMES:
+            m.cols["k"] = [self.names[(i * 2 + 1) % len(self.names)] for i in range(m.n())]
+        if self.variant == "U":
+            # fixed-width numpy string columns kept as they are (cast_strings=False)
+            t = Table({"name": np.array(m.cols["name"], dtype="U1"), "v": np.array(m.cols["v"], dtype=float),
+                       "k": np.array(m.cols["k"], dtype="U1")}, cast_strings=False)
+        else:
+            t = Table({"name": np.array(m.cols["name"], dtype=object) if m.n() else np.array([], dtype=object),
+                       "v": np.array(m.cols["v"], dtype=float),
+                       "k": np.array(m.cols["k"], dtype=object)})
         return {"t": t, "m": m}
 
     def enabled(self, live, hist):
@@ -162,12 +174,13 @@ class System(simple.SimpleSystem):
             if pos is not None:
                 m.icol()[pos] = op[2]
         elif k in ("col", "attr"):
+            pat = PATTERN if self.names == NAMES else tuple(self.names[(i * 2) % len(self.names)] for i in range(30))
             if op[1] == "pattern":
-                val = np.array(PATTERN[:n], dtype=object)
-                new = list(PATTERN[:n])
+                val = np.array(pat[:n], dtype=object)
+                new = list(pat[:n])
             else:
-                val = "a"
-                new = ["a"] * n
+                val = self.names[0]
+                new = [self.names[0]] * n
             if k == "col":
                 t[m.index] = val
             else:
@@ -210,12 +223,13 @@ class System(simple.SimpleSystem):
             m.order.remove(m.index)
         elif k == "readd":
             n = len(m.cols[m.order[0]])
-            val = np.array((PATTERN + PATTERN)[1:n + 1], dtype=object)
+            pat = PATTERN if self.names == NAMES else tuple(self.names[(i * 2) % len(self.names)] for i in range(30))
+            val = np.array((pat + pat)[1:n + 1], dtype=object)
             if op[1] == "item":
                 t[m.index] = val
             else:
                 setattr(t, m.index, val)
-            m.cols[m.index] = list((PATTERN + PATTERN)[1:n + 1])
+            m.cols[m.index] = list((pat + pat)[1:n + 1])
             m.order.append(m.index)
         elif k == "labels":
             # a query: the unique row labels (it may fill a cache of its own)
@@ -344,7 +358,7 @@ class System(simple.SimpleSystem):
                 return issues
 
         maxc = max(3, max(cnt.values(), default=0) + 1)
-        for name in NAMES + (ABSENT,):
+        for name in tuple(self.names) + (ABSENT,):
             for count in (None,) + tuple(range(-maxc, maxc + 1)):
                 for off in (0, -1, 1):
                     pos = resolve(col, name, count, off)
@@ -418,8 +432,10 @@ class System(simple.SimpleSystem):
 
 
 LONG = tuple("abcabacbbacabcaabcbbca")      # 21 rows, every name repeated (sorting-based cache builds need > 16 rows to go wrong)
-INITS_QUICK = [(), ("a",), ("a", "b", "a"), LONG]
-INITS_THOROUGH = [(), ("a",), ("a", "b", "a"), ("b", "a", "a", "b"), ("a", "a"), LONG, tuple("ccbbaacbacbacbaabbccabcabc")]
+SPECIAL = ("m:1", "m", "p>q", "m:1")       # names with a lone ':' / '>' (the separators are '::', '<<', '>>')
+INITS_QUICK = [(), ("a",), ("a", "b", "a"), LONG, SPECIAL, ("a", "b", "a", "U")]
+INITS_THOROUGH = [(), ("a",), ("a", "b", "a"), ("b", "a", "a", "b"), ("a", "a"), LONG, tuple("ccbbaacbacbacbaabbccabcabc"),
+                  SPECIAL, ("m", "p>q", "m:1"), ("a", "b", "a", "U"), ("b", "a", "a", "b", "U")]
 
 
 def plan(tier, seed):
@@ -427,19 +443,24 @@ def plan(tier, seed):
     inits = INITS_QUICK if tier == "quick" else INITS_THOROUGH
     depth = 4 if tier == "quick" else 6
     for init in inits:
+        variant = ""
+        if init and init[-1] == "U":
+            init, variant = init[:-1], "U"
         d_ = depth if len(init) < 10 else (2 if tier == "quick" else 3)
-        jobs.append({"name": f"bfs:{''.join(init) or 'empty'}:d{d_}", "mode": "pure", "hashseed": seed % 2 ** 32,
+        if variant or not set(init) <= set(NAMES):
+            d_ = min(d_, 3)
+        jobs.append({"name": f"bfs:{''.join(init) or 'empty'}{variant}:d{d_}", "mode": "pure", "hashseed": seed % 2 ** 32,
                      "nproc": 5 if tier == "quick" else 16, "timeout": 3300,
-                     "args": {"init": init, "tier": tier, "depth": d_, "time_cap": 2400}})
+                     "args": {"init": init, "tier": tier, "depth": d_, "time_cap": 2400, "variant": variant}})
     return {"level": LEVEL, "jobs": jobs,
-            "assumptions": ["row names avoid the separator substrings '::', '<<', '>>'",
+            "assumptions": ["row names avoid the separator substrings '::', '<<', '>>' (names with a lone ':' or '>' are included)",
                             "offsets are only generated when they land inside the table",
                             "table.py is pure Python: the extension-free copy of the working tree is imported"]}
 
 
 def run_job(job):
     a = job["args"]
-    s = System(a["init"], a["tier"], common.config_info(job))
+    s = System(a["init"], a["tier"], common.config_info(job), a.get("variant", ""))
     return common.run_bfs(s, job)
 
 
@@ -454,8 +475,12 @@ def finish(plan_, results):
 
 def replay(issue):
     ops = [ast.literal_eval(s) for s in issue["ops"]]
-    init = tuple(x for x in issue["case"]["system"].split(":", 1)[1].split(",") if x)
-    s = System(init, "thorough", issue.get("config"))
+    sysname = issue["case"]["system"].split(":", 1)[1]
+    variant = ""
+    if sysname.endswith("/U"):
+        sysname, variant = sysname[:-2], "U"
+    init = tuple(x for x in sysname.split(",") if x)
+    s = System(init, "thorough", issue.get("config"), variant)
     s.universe = ops
     hist = tuple(range(len(ops) - 1))
     r = s.expand(hist) if False else None
